@@ -62,26 +62,30 @@ type dRun struct {
 	nWrites    int
 	viaLogger  bool
 	closeAsked bool
-	scenario   int
-	reentrant  bool
-	sinkKind   int
-	sinkDelay  time.Duration
-	stallAt    int
-	stallFor   time.Duration
-	gap        int
-	fatalWait  bool
-	errKind    int
-	twoClosers bool  // a second goroutine calls Close at the same time
-	closeRets  []int // tick at which each Close call returned
-	alertAt    [][2]int
-	neighbour  bool // a second diode.Writer shares the package-level buffer pool
-	closeTwice bool
-	close2Inv  int
-	close2Ret  int
-	nbWritten  map[string]bool
-	nbSeen     map[string]bool
-	fatalFilt  int // 0: the Fatal event is enabled; 1: logger level Disabled; 2: global level Disabled
-	skipIdle   bool
+	// quietK > 0: after the idle check, wait until about quietK poll intervals have passed
+	// since the last delivery, write one more message and check promptness again
+	quietK       int
+	lastDelivNow int64
+	scenario     int
+	reentrant    bool
+	sinkKind     int
+	sinkDelay    time.Duration
+	stallAt      int
+	stallFor     time.Duration
+	gap          int
+	fatalWait    bool
+	errKind      int
+	twoClosers   bool  // a second goroutine calls Close at the same time
+	closeRets    []int // tick at which each Close call returned
+	alertAt      [][2]int
+	neighbour    bool // a second diode.Writer shares the package-level buffer pool
+	closeTwice   bool
+	close2Inv    int
+	close2Ret    int
+	nbWritten    map[string]bool
+	nbSeen       map[string]bool
+	fatalFilt    int // 0: the Fatal event is enabled; 1: logger level Disabled; 2: global level Disabled
+	skipIdle     bool
 
 	tick          int
 	msgs          []*dMsg
@@ -228,6 +232,7 @@ func (k *dSink) Write(p []byte) (int, error) {
 		m.delivered++
 		if m.delivered == 1 {
 			m.delivTick = r.t()
+			r.lastDelivNow = zsim.S.Now()
 		}
 		if r.sinkClosed > 0 && r.on("C11") && r.owed(m) {
 			// (a message whose Write began after Close had been called - an alerter that writes
@@ -585,6 +590,14 @@ func (r *dRun) config() {
 	if r.scenario == scFatal {
 		r.viaLogger = true
 	}
+	if r.scenario == scNormal && r.interval > 0 && c.Chance(1, 40) {
+		base := []int{1000, 1024, 2048, 4096, 100, 256, 512}[c.Intn(7)]
+		r.quietK = base + c.Intn(3) - 1
+		if c.Chance(1, 4) {
+			r.quietK = 1 + c.Intn(300)
+		}
+		r.sinkKind = 0
+	}
 	if r.scenario == scNormal && c.Chance(1, 100) {
 		// a long history: one producer bursts hundreds of messages into a tiny ring in front of
 		// an interleaving consumer - hundreds of separate drop reports within one simulated second
@@ -595,6 +608,15 @@ func (r *dRun) config() {
 		r.sinkKind = 0
 		r.viaLogger, r.reentrant, r.neighbour = false, false, false
 		zsim.Probe("long_burst")
+		if c.Chance(1, 2) {
+			// or a big ring that fills up to most of its capacity behind a stalled writer and
+			// is never lapped: nothing may be dropped
+			r.ring = []int{96, 128, 300, 513}[c.Intn(4)]
+			r.nWrites = r.ring*2/3 + c.Intn(r.ring/4)
+			r.sinkKind = 2
+			r.stallAt = 0
+			zsim.Probe("big_ring_nearly_full")
+		}
 		return
 	}
 	if r.scenario == scNormal && c.Chance(1, 12) {
@@ -742,6 +764,22 @@ func (diodeWorld) Run(prop string, ch *zsim.Choices, trace bool) *RunResult {
 				zsim.Fail("C12.not_prompt", "%d written message(s) %v neither delivered nor reported (alerts=%d) after %v idle with no later Write or Close; tasks: %s", n, ids, r.alertSum, idle, s.Describe())
 			}
 		}
+		if r.on("C12") && !r.skipIdle && r.quietK > 0 && r.interval > 0 && r.sinkKind == 0 {
+			// a long quiet period, then a single message: counters of idle rounds tend to have
+			// their thresholds at round numbers, so the wait ends half an interval before or
+			// after such a number of polls since the last delivery
+			zsim.Probe("write_after_long_quiet_period")
+			target := r.lastDelivNow + int64(r.quietK)*int64(r.interval) - int64(r.interval)/2
+			if now := s.Now(); target > now {
+				zsim.Sleep(time.Duration(target - now))
+			}
+			m := r.newMsg(98, 0)
+			r.directWrite(m, 3)
+			zsim.Sleep(3*r.interval + time.Millisecond)
+			if n, ids := r.missing(); n > r.alertSum {
+				zsim.Fail("C12.not_prompt", "%d written message(s) %v neither delivered nor reported (alerts=%d) %v after a Write that followed about %d idle poll intervals; tasks: %s", n, ids, r.alertSum, 3*r.interval+time.Millisecond, r.quietK, s.Describe())
+			}
+		}
 		var closer2 *zsim.Task
 		if r.twoClosers {
 			// two goroutines close at the same time (a shutdown path and, say, a Fatal):
@@ -772,7 +810,7 @@ func (diodeWorld) Run(prop string, ch *zsim.Choices, trace bool) *RunResult {
 		zsim.Settle()
 		r.settled = true
 	}
-	s = zsim.Run(zsim.Config{MaxSteps: 60000, Trace: trace}, ch, main)
+	s = zsim.Run(zsim.Config{MaxSteps: 150000, Trace: trace}, ch, main)
 	return finish(s, ch, r.summary(), func() *zsim.Violation { return r.post(s) })
 }
 
